@@ -28,6 +28,8 @@ def mk_exc(kind):
         return BrokenPipeError(errno.EPIPE, "pipe")
     if kind == "oserror":
         return OSError(errno.EIO, "io")
+    if kind == "eintr":
+        return InterruptedError(errno.EINTR, "interrupted system call")
     if kind == "gaierror":
         return _real.gaierror(-2, "Name or service not known")
     if kind == "valueerror":
